@@ -368,6 +368,11 @@ def run_errors_from_headers_only(rep, facts):
                 rv = st["rv"]
                 if rv["k"] == "agg" and rv.get("ak") == "adt":
                     a = norm(rv["adt"])
+                    if a == "std::result::Result" and rv.get("vi") == 1 and rv.get("ops"):
+                        # `Err(e) => return Err(e)`: handing on the error of a callee is propagation, not construction
+                        src = ir.Resolver(b).operand(rv["ops"][0], (bi, blk["st"].index(st)))
+                        if any(x[0] == 'variant' and x[2] == 'Err' for x in ir.walk(src)):
+                            continue
                     if a == "parser::Error" or (a == "std::result::Result" and rv.get("vi") == 1 and "parser::Error" in b.locals[st["place"]["l"]]["ty"]["s"]):
                         bad = bad or st
                 elif rv["k"] == "use" and "const" in rv["op"] and "parser::Error" in str(rv["op"].get("ty", "")) and "p" not in st["place"]:
